@@ -27,7 +27,7 @@ META = {
         "thorough": "all inputs <=4 object leaves x <=3 species leaves x every family-subset assignment over 2 families x 6 cost vectors; random inputs up to 7 object leaves / 4 species leaves / 5 families",
     },
     "assumptions": ["R-UNORD joint DP over all labellings is the judge (self-checked against explicit enumeration)", "cost vectors restricted to the coherent region as quantified (F-COHERENCE outside)"],
-    "timeout": {"quick": 900, "thorough": 7200},
+    "timeout": {"quick": 420, "thorough": 7200},
 }
 
 
